@@ -81,6 +81,7 @@ func drawSchema(rt *rapid.T, name string, cfg schemaCfg) model.Schema {
 // tgen generates items and requests for one table.
 type tgen struct {
 	failClasses        []string // failingOp draws from these classes (nil: all)
+	bigNums            bool     // the number-typed key parts differ only beyond float64 precision (useBigNumberKeys)
 	redeclare          bool     // lateIndexOp may re-declare the type of an index key attribute
 	s                  model.Schema
 	keys               []model.Item
@@ -169,6 +170,29 @@ func (g *tgen) ixAttrs() []string {
 
 func (g *tgen) key(rt *rapid.T) model.Item {
 	return model.CloneItem(rapid.SampledFrom(g.keys).Draw(rt, "key"))
+}
+
+// useBigNumberKeys replaces the number-typed parts of the pool keys by numbers
+// that differ only beyond float64 precision (adjacent integers above 2^53, long
+// fractions). No expression may run on such a table while F-FLOAT is open.
+func (g *tgen) useBigNumberKeys(rt *rapid.T) {
+	bigPool := []string{"9007199254740993", "9007199254740992", "9007199254740994", "12345678901234567890123456789012345678", "12345678901234567890123456789012345679",
+		"0.1234567890123456789", "0.1234567890123456788", "-9007199254740993", "18446744073709551616", "18446744073709551617"}
+	seen := map[string]bool{}
+	var keys []model.Item
+	for _, k := range g.keys {
+		for _, a := range g.s.KeyAttrs() {
+			if g.s.Attrs[a] == "N" {
+				k[a] = model.Num(rapid.SampledFrom(bigPool).Draw(rt, "bigKeyPart"))
+			}
+		}
+		if c := model.CanonItem(k); !seen[c] {
+			seen[c] = true
+			keys = append(keys, k)
+		}
+	}
+	g.keys = keys
+	g.bigNums = true
 }
 
 // item draws a full item for one of the pool keys.
